@@ -701,6 +701,7 @@ func findFunc(f *ast.File, recv, name string) *ast.FuncDecl {
 func main() {
 	repo := "/repo"
 	out := ""
+	out2 := ""
 	for i := 1; i < len(os.Args); i++ {
 		switch os.Args[i] {
 		case "-repo":
@@ -708,6 +709,9 @@ func main() {
 			i++
 		case "-out":
 			out = os.Args[i+1]
+			i++
+		case "-out2":
+			out2 = os.Args[i+1]
 			i++
 		}
 	}
@@ -797,17 +801,35 @@ func main() {
 		}
 	}
 	fmt.Fprintf(&b, "/-- order in which Executer.process evaluates the fork-choice predicates -/\ndef processOrder : List String := [%s]\n\nend LiskVerif.Gen\n", strings.Join(order, ", "))
-	if out == "" {
+	// second output (typed translation, typed.go); nothing is written unless both translations succeed
+	b2, err := genTyped(repo)
+	if err != nil {
+		fmt.Fprintln(os.Stderr, "fngen:", err)
+		os.Exit(1)
+	}
+	if out == "" && out2 == "" {
 		fmt.Print(b.String())
+		fmt.Print(b2)
 		return
 	}
-	tmp := out + ".tmp"
-	if err := os.WriteFile(tmp, []byte(b.String()), 0o644); err != nil {
-		fmt.Fprintln(os.Stderr, "fngen:", err)
-		os.Exit(1)
+	type outFile struct{ path, text string }
+	outs := []outFile{}
+	if out != "" {
+		outs = append(outs, outFile{out, b.String()})
 	}
-	if err := os.Rename(tmp, out); err != nil {
-		fmt.Fprintln(os.Stderr, "fngen:", err)
-		os.Exit(1)
+	if out2 != "" {
+		outs = append(outs, outFile{out2, b2})
+	}
+	for _, o := range outs {
+		if err := os.WriteFile(o.path+".tmp", []byte(o.text), 0o644); err != nil {
+			fmt.Fprintln(os.Stderr, "fngen:", err)
+			os.Exit(1)
+		}
+	}
+	for _, o := range outs {
+		if err := os.Rename(o.path+".tmp", o.path); err != nil {
+			fmt.Fprintln(os.Stderr, "fngen:", err)
+			os.Exit(1)
+		}
 	}
 }
